@@ -312,6 +312,23 @@ def udp_history(res, seed):
                                        'observed': {'returned': r, 'expected': exp, 'sink_received': list(got), 'sink_expected': list(want)},
                                        'what': 'UDP hub history: %s returned %r (expected %r); sink saw %r (expected %r)' % (k, r, exp, got, want)})
                 break
+        # close and re-open an endpoint that has been used, then use it again: delivery and silence as before, nothing raises
+        if not res.violations or all(not v['key'].startswith('udp:') for v in res.violations):
+            ops.append('close-B'); c.closeCom('B')
+            ops.append('get-closed-B'); r = c.getData('B')
+            if r is not None or got != want:
+                res.violations.append({'key': 'udp:history:closed-delivered', 'input': {'ops': list(ops), 'udp': True, 'seed': seed}, 'observed': {'returned': r, 'sink_received': list(got)},
+                                       'what': 'UDP hub history: a receive on a closed endpoint returned %r / delivered' % (r,)})
+            ops.append('reopen-B'); c.openCom('B')
+            ops.append('poll-B-after-reopen'); r = c.getData('B')          # whatever was queued on the old socket is gone with it
+            if r is not None or got != want:
+                res.violations.append({'key': 'udp:history:reopen', 'input': {'ops': list(ops), 'udp': True, 'seed': seed}, 'observed': {'returned': r, 'sink_received': list(got)},
+                                       'what': 'UDP hub history: the first poll after re-opening returned %r' % (r,)})
+            ops.append('send-after-reopen'); c.sendData('A', 'again'); want.append('again')
+            ops.append('poll-B'); r = c.getData('B')
+            if r != 'again' or got != want:
+                res.violations.append({'key': 'udp:history:reopen', 'input': {'ops': list(ops), 'udp': True, 'seed': seed}, 'observed': {'returned': r, 'sink_received': list(got), 'sink_expected': list(want)},
+                                       'what': 'UDP hub history: after close and re-open of the receiving endpoint a message sent to it was not delivered exactly once'})
         res.stats['udp_history'] = 'ran %d steps, %d messages delivered' % (len(ops) - 1, len(want))
     except Exception as e:
         res.violations.append({'key': 'udp:raises:%s:%s' % (ops[-1].split('#')[0], type(e).__name__), 'input': {'ops': ops, 'udp': True, 'seed': seed},
